@@ -1,4 +1,5 @@
 import Cell2v.Audit
 import Cell2v.Props.C09
 import Cell2v.Props.C09Ring
+import Cell2v.Props.C09Mpsc
 #audit_ns Cell2v.Props.C09
